@@ -118,6 +118,9 @@ def check(ctx, report):
     from .c12 import item_size_agreement
     item_size_agreement(ctx, report, model.cls('ArrayBase'), RULE='C01.R6',
                         title='vector parameter (item kind produced by the parser) and vector composer (item kind consumed) agree')
+    # text side: the name[=value] composers write the four value kinds the parser distinguishes (shared with C18.R4)
+    from .c18 import name_value_composers
+    name_value_composers(ctx, report, rule='C01.R7')
     if 'SslRecord' in reviewed and reviewed['SslRecord'].get('strip_header'):
         # the header left out of the element-wise comparison above
         from .c06 import ssl2_header
